@@ -180,6 +180,10 @@ func v18Word(rt *rapid.T, label string) string {
 		return "a"
 	case k == 2:
 		return "pa:ss word\x00\xff"
+	case k == 3:
+		return "lowercase"
+	case k == 4:
+		return "UPPER"
 	}
 	n := rapid.IntRange(1, 8).Draw(rt, label+"Len")
 	const al = "abcXYZ019:_ "
@@ -266,9 +270,16 @@ func v18GenSConn(rt *rapid.T, c *v18SCase, idx int) *v18SConn {
 			s.pass = c.pass[1:]
 		}
 	case v18SubCaseFlip:
-		s.pass = strings.ToUpper(c.pass)
-		if s.pass == c.pass {
-			s.pass = strings.ToLower(c.pass)
+		flip := func(x string) string {
+			if y := strings.ToUpper(x); y != x {
+				return y
+			}
+			return strings.ToLower(x)
+		}
+		if rapid.Bool().Draw(rt, "flipUser") {
+			s.user = flip(c.user)
+		} else {
+			s.pass = flip(c.pass)
 		}
 	case v18SubBadVer:
 		s.subVer = rapid.SampledFrom([]byte{0, 2, 5, 0xff}).Draw(rt, "subVer")
